@@ -46,6 +46,10 @@ DIR_STYLES = [
     'CANARY{t}_plain', 'CANARY{t}(paren)', 'CANARY{t},comma', '[CANARY{t}]',
     'k=CANARY{t}', "CANARY{t}'quote", 'CANARY{t}+plus@at', '(CANARY{t}',
     'CANARY{t})', 'CANARY{t}=', ',CANARY{t}',
+    # ordinary names, but so deeply nested that every absolute path is
+    # longer than 255 characters (NAME_MAX, not PATH_MAX)
+    'CANARY{t}_deep/' + '/'.join(f'level_{k}_of_a_rather_deep_directory_tree'
+                                 for k in range(8)),
 ]
 
 CLASSES = ['success', 'success', 'success', 'missing-query', 'corrupt-query',
@@ -139,7 +143,7 @@ def run_case(spec, work):
     token = spec['token']
     style = DIR_STYLES[spec['dir_style']]
     root = pathlib.Path(work) / style.format(t=token)
-    root.mkdir()
+    root.mkdir(parents=True)
     w = mapworld.build_world(spec, root)
     rng = np.random.default_rng(spec['seed'] + 20)
     cfg = w.config
